@@ -111,7 +111,8 @@ def run(chk):
         b = arg_obj(st, 'b', Struct(PG, [BV.sym(16, 'q'), UNIT]))
         o = I.run('<%s<T, A> as core::cmp::PartialEq>::eq' % PG, [a, b], st)
         want = BV(1, [eq_bit(BV.sym(16, 'p').bits, BV.sym(16, 'q').bits)])
-        chk.ob('port-object', 'eq is exactly equality of the port numbers', len(o) == 1 and o[0].kind == 'ret' and same(o[0].val, want), 'returns %r expected %r' % (o, want))
+        chk.ob('port-object', 'eq is exactly equality of the port numbers', len(o) == 1 and o[0].kind == 'ret' and (same(o[0].val, want) or same(o[0].val, BV(1, [eq_bit(BV.sym(16, 'q').bits, BV.sym(16, 'p').bits)]))),
+               'returns %r expected %r' % (o, want))
         chk.count('function-instances', 3)
     chk.guard('port-object', 'new/clone/eq', misc)
     # census: every asm block under instructions::port is one of the six analysed
